@@ -439,16 +439,10 @@ def every_path_calls(fn, pred):
 def c08_4(ck, prog):
     r = ck.rule('C08.4', 'the handshake buffers at most MAX_BUFFER bytes: every command is processed only '
                 'after the incoming and outgoing buffers were checked in the same iteration', 'DOM',
-                breaks='an unauthenticated peer makes the server buffer unbounded data', floor=2)
+                breaks='an unauthenticated peer makes the server buffer unbounded data', floor=1)
     fn = prog.fn('_dbus_auth_do_work', AUTH)
-    m = prog.macros.get(('MAX_BUFFER', AUTH))
-    if m is None:
-        raise AnalysisBroken('MAX_BUFFER macro vanished')
-    body = m['body'].replace(' ', '')
-    if body in ('(16*_DBUS_ONE_KILOBYTE)', '16384', '(16*1024)'):
-        r.ok('MAX_BUFFER==16KiB', {'body': m['body']})
-    else:
-        r.violation('MAX_BUFFER==16KiB', fn.name, AUTH, m['line'], 'MAX_BUFFER is %s' % m['body'])
+    # the bound itself (however it is spelled: macro, enum, literal) is read off the comparisons below as the
+    # compiler folded it; it must not exceed 16 KiB
 
     def akey(atom, resolve):
         if atom[0] == 'cmp' and atom[1] == '<=':
